@@ -2,6 +2,7 @@
   C18 — input is consumed in bounded, consecutive chunks, each record once per pass.
 -/
 import YawVerif.Lemmas.Reader
+import YawVerif.Model.Parquet
 
 namespace Yaw.C18
 open Yaw Yaw.Rd
@@ -40,6 +41,222 @@ theorem requests_consecutive (n : Int) (c : Nat) (fuel : Nat) :
 theorem probe_and_passes_pinned :
     Gen.pinDataProbe = "ace9bc8216460ef9" ∧ Gen.pinRandomProbe = "0163df6a58e1fbdd" ∧
     Gen.pinRandomIter = "68b6757a4ca11947" := by decide
+
+/-! ### Parquet: the row-group cache hands out the file's rows in order, in chunks of `c`, and never
+    requests a row group before it is needed -/
+
+namespace Pq
+open Yaw.Parquet
+
+@[simp] theorem size_nil {α : Type} : size ([] : List (List α)) = 0 := rfl
+@[simp] theorem size_cons {α : Type} (x : List α) (xs : List (List α)) : size (x :: xs) = x.length + size xs := by
+  simp [size]
+@[simp] theorem size_append {α : Type} (a b : List (List α)) : size (a ++ b) = size a + size b := by
+  simp [size]
+
+theorem size_flatten {α : Type} (a : List (List α)) : a.flatten.length = size a := by
+  induction a with
+  | nil => rfl
+  | cons x xs ih => simp [List.flatten_cons, ih]
+
+/-- `_load_groups` only moves row groups from the file into the cache -/
+theorem load_flatten {α : Type} (c : Nat) : ∀ (gs cache : List (List α)) (r l : Nat),
+    (load c gs cache r l).cache.flatten ++ (load c gs cache r l).groups.flatten = cache.flatten ++ gs.flatten := by
+  intro gs
+  induction gs with
+  | nil => intro cache r l; simp [load]
+  | cons g gs ih =>
+    intro cache r l
+    unfold load
+    split
+    · rw [ih]; simp
+    · simp
+
+/-- after `_load_groups` the cache holds a full chunk or the file is exhausted -/
+theorem load_full {α : Type} (c : Nat) : ∀ (gs cache : List (List α)) (r l : Nat),
+    c ≤ size (load c gs cache r l).cache ∨ (load c gs cache r l).groups = [] := by
+  intro gs
+  induction gs with
+  | nil => intro cache r l; right; simp [load]
+  | cons g gs ih =>
+    intro cache r l
+    unfold load
+    split
+    · exact ih _ _ _
+    · next h => left; simp only; omega
+
+theorem pop_append {α : Type} (c : Nat) : ∀ (cache : List (List α)) (n : Nat),
+    (pop c n cache).1 ++ (pop c n cache).2 = cache := by
+  intro cache
+  induction cache with
+  | nil => intro n; rfl
+  | cons t ts ih =>
+    intro n
+    unfold pop
+    split
+    · simp only [List.cons_append]; rw [ih]
+    · rfl
+
+/-- the pop loop collects at least `c` rows unless the cache runs out -/
+theorem pop_enough {α : Type} (c : Nat) : ∀ (cache : List (List α)) (n : Nat),
+    c ≤ n + size (pop c n cache).1 ∨ (pop c n cache).2 = [] := by
+  intro cache
+  induction cache with
+  | nil => intro n; right; rfl
+  | cons t ts ih =>
+    intro n
+    unfold pop
+    split
+    · rcases ih (n + t.length) with h | h
+      · left; simp only [size_cons]; omega
+      · right; exact h
+    · next h => left; simp only [size_nil]; omega
+
+/-- `_extract_chunk` removes exactly the chunk from the left end of the cache -/
+theorem extract_flatten {α : Type} (c : Nat) (cache : List (List α)) :
+    (extract c cache).1 ++ (extract c cache).2.flatten = cache.flatten := by
+  unfold extract
+  have hp := pop_append c cache 0
+  generalize pop c 0 cache = pr at hp
+  obtain ⟨p, rest⟩ := pr
+  simp only at hp ⊢
+  rw [← hp, List.flatten_append]
+  split
+  · next he =>
+    have hdrop : List.drop c p.flatten = [] := by simpa using he
+    have htake : List.take c p.flatten = p.flatten := by
+      conv_rhs => rw [← List.take_append_drop c p.flatten, hdrop, List.append_nil]
+    rw [htake]
+  · simp only [List.flatten_cons]
+    rw [← List.append_assoc, List.take_append_drop]
+
+/-- … and the chunk has `c` rows, or all that is left when fewer remain in the cache -/
+theorem extract_length {α : Type} (c : Nat) (cache : List (List α)) :
+    (extract c cache).1.length = min c (size cache) := by
+  unfold extract
+  have hp := pop_append c cache 0
+  have he := pop_enough c cache 0
+  generalize pop c 0 cache = pr at hp he
+  obtain ⟨p, rest⟩ := pr
+  simp only at hp he ⊢
+  rw [List.length_take, size_flatten]
+  have hs : size cache = size p + size rest := by rw [← hp, size_append]
+  rcases he with h | h
+  · omega
+  · subst h
+    simp only [size_nil, Nat.add_zero] at hs
+    omega
+
+/-- MAIN (Parquet, content): one call hands out the next rows of the file, nothing is lost or repeated -/
+theorem next_flatten {α : Type} (c : Nat) (s : St α) :
+    (next c s).1 ++ ((next c s).2.cache.flatten ++ (next c s).2.groups.flatten) =
+      s.cache.flatten ++ s.groups.flatten := by
+  unfold next
+  simp only
+  rw [← List.append_assoc, extract_flatten, load_flatten]
+
+/-- MAIN (Parquet, all chunks): `k` calls hand out a prefix of the file's rows, in order -/
+theorem run_flatten {α : Type} (c : Nat) : ∀ (k : Nat) (s : St α),
+    (run c k s).1.flatten ++ ((run c k s).2.cache.flatten ++ (run c k s).2.groups.flatten) =
+      s.cache.flatten ++ s.groups.flatten := by
+  intro k
+  induction k with
+  | zero => intro s; simp [run]
+  | succ k ih =>
+    intro s
+    simp only [run, List.flatten_cons, List.append_assoc]
+    rw [ih, next_flatten]
+
+/-- MAIN (Parquet, chunk size): a chunk has `c` rows, or everything that is left of the file -/
+theorem next_length {α : Type} (c : Nat) (s : St α) :
+    (next c s).1.length = min c (size s.cache + size s.groups) := by
+  unfold next
+  simp only
+  rw [extract_length]
+  have hf := load_flatten c s.groups s.cache s.requested s.last
+  have hfull := load_full c s.groups s.cache s.requested s.last
+  have hl := congrArg List.length hf
+  simp only [List.length_append, size_flatten] at hl
+  rcases hfull with h | h
+  · omega
+  · rw [h] at hl
+    simp only [size_nil, Nat.add_zero] at hl
+    omega
+
+/-- the read-ahead invariant: the cache holds fewer rows than the row group requested last, i.e. without
+    that group the rows already handed out would not be covered -/
+def Lazy {α : Type} (s : St α) : Prop :=
+  (s.requested = 0 ∧ s.cache = []) ∨ (0 < s.requested ∧ size s.cache < s.last)
+
+private theorem load_post {α : Type} (c : Nat) (hc : 0 < c) : ∀ (gs cache : List (List α)) (r l : Nat),
+    (∀ g ∈ gs, g ≠ []) →
+    ((load c gs cache r l).requested = r ∧ (load c gs cache r l).cache = cache ∧ (load c gs cache r l).last = l ∧
+        (c ≤ size cache ∨ gs = [])) ∨
+    (r < (load c gs cache r l).requested ∧ 0 < (load c gs cache r l).last ∧
+        size (load c gs cache r l).cache < c + (load c gs cache r l).last) := by
+  intro gs
+  induction gs with
+  | nil => intro cache r l _; left; simp [load]
+  | cons g gs ih =>
+    intro cache r l hne
+    unfold load
+    split
+    · next hlt =>
+      right
+      have hg : g ≠ [] := hne g (by simp)
+      have hgl : 0 < g.length := List.length_pos_iff.mpr hg
+      rcases ih (cache ++ [g]) (r + 1) g.length (fun x hx => hne x (by simp [hx])) with h | h
+      · obtain ⟨h1, h2, h3, _⟩ := h
+        refine ⟨by omega, by omega, ?_⟩
+        rw [h2, h3, size_append]
+        simp only [size_cons, size_nil]
+        omega
+      · obtain ⟨h1, h2, h3⟩ := h
+        exact ⟨by omega, h2, h3⟩
+    · next hge => left; exact ⟨rfl, rfl, rfl, Or.inl (by omega)⟩
+
+/-- MAIN (Parquet, bounded reads): reading stays lazy — after every chunk the row groups requested so
+    far are needed to cover the rows handed out (row groups are non-empty, chunk size ≥ 1) -/
+theorem next_lazy {α : Type} (c : Nat) (hc : 0 < c) (s : St α) (hne : ∀ g ∈ s.groups, g ≠ []) (h : Lazy s) :
+    Lazy (next c s).2 := by
+  unfold next
+  simp only
+  have hlen := extract_length c (load c s.groups s.cache s.requested s.last).cache
+  have hfl := extract_flatten c (load c s.groups s.cache s.requested s.last).cache
+  have hsz : size (extract c (load c s.groups s.cache s.requested s.last).cache).2 =
+      size (load c s.groups s.cache s.requested s.last).cache - min c (size (load c s.groups s.cache s.requested s.last).cache) := by
+    have := congrArg List.length hfl
+    simp only [List.length_append, size_flatten] at this
+    omega
+  rcases load_post c hc s.groups s.cache s.requested s.last hne with hp | hp
+  · obtain ⟨h1, h2, h3, h4⟩ := hp
+    rcases h with ⟨hr, hcache⟩ | ⟨hr, hlt⟩
+    · -- nothing requested yet and nothing to request: the file is empty
+      left
+      refine ⟨by simp only; omega, ?_⟩
+      simp only
+      rw [h2, hcache]
+      simp [extract, pop]
+    · right
+      refine ⟨by simp only; omega, ?_⟩
+      simp only
+      rw [hsz, h2, h3]
+      omega
+  · obtain ⟨h1, h2, h3⟩ := hp
+    right
+    refine ⟨by simp only; omega, ?_⟩
+    simp only
+    rw [hsz]
+    omega
+
+theorem parquet_pinned : Gen.pinParquetCache = "c82032c997ed9b51" := by decide
+
+/-! non-vacuity: three row groups of sizes 4, 1, 2, chunk size 3 -/
+example : (run 3 3 (start [[0, 1, 2, 3], [4], [5, 6]])).1 = [[0, 1, 2], [3, 4, 5], [6]] := by decide
+example : ((run 3 1 (start [[0, 1, 2, 3], [4], [5, 6]])).2.requested, (run 3 2 (start [[0, 1, 2, 3], [4], [5, 6]])).2.requested) = (1, 3) := by
+  decide
+
+end Pq
 
 /-! non-vacuity -/
 example : readAll [1, 2, 3, 4, 5, 6, 7] 3 = [[1, 2, 3], [4, 5, 6], [7]] := by decide
